@@ -60,17 +60,36 @@ func (p bpath) guards() []string {
 // evaluation order (arguments before the call). Bounded: more than 4096 paths is reported as nil.
 func enumPaths(body *ast.BlockStmt) []bpath {
 	type st struct {
-		p    bpath
-		done bool
+		p   bpath
+		brk int // > 0: an unlabelled break left the switch at this nesting level; statements are skipped until it ends
 	}
-	cur := []st{{}}
+	cur := []st{{}}     // live paths
+	var finished []bpath // paths that returned or left the block
 	var stmts func(list []ast.Stmt)
 	addAll := func(evs ...pev) {
 		for i := range cur {
-			if !cur[i].done {
+			if cur[i].brk == 0 {
 				cur[i].p = append(append(bpath{}, cur[i].p...), evs...)
 			}
 		}
+	}
+	finish := func() {
+		var live []st
+		for _, c := range cur {
+			if c.brk == 0 {
+				finished = append(finished, c.p)
+			} else {
+				live = append(live, c)
+			}
+		}
+		cur = live
+	}
+	clone := func(in []st) []st {
+		out := make([]st, len(in))
+		for i, b := range in {
+			out[i] = st{append(bpath{}, b.p...), b.brk}
+		}
+		return out
 	}
 	callsOf := func(n ast.Node) []pev {
 		var out []pev
@@ -99,6 +118,8 @@ func enumPaths(body *ast.BlockStmt) []bpath {
 	}
 	overflow := false
 	depth := 0
+	swLevel := 0          // nesting level of switch statements
+	var swLoopDepth []int // loop depth at which each enclosing switch sits
 	var stmt func(s ast.Stmt)
 	stmt = func(s ast.Stmt) {
 		if overflow {
@@ -108,6 +129,8 @@ func enumPaths(body *ast.BlockStmt) []bpath {
 		case nil:
 		case *ast.BlockStmt:
 			stmts(x.List)
+		case *ast.LabeledStmt:
+			stmt(x.Stmt)
 		case *ast.ExprStmt:
 			addAll(callsOf(x.X)...)
 		case *ast.AssignStmt:
@@ -135,42 +158,22 @@ func enumPaths(body *ast.BlockStmt) []bpath {
 				r = append(r, nospace(e))
 			}
 			addAll(pev{"return", strings.Join(r, ","), x})
-			for i := range cur {
-				cur[i].done = true
-			}
+			finish()
 		case *ast.IfStmt:
 			stmt(x.Init)
 			addAll(callsOf(x.Cond)...)
 			before := cur
 			cond := nospace(x.Cond)
-			// then arm
-			cur = nil
-			for _, b := range before {
-				cur = append(cur, st{append(bpath{}, b.p...), b.done})
-			}
+			cur = clone(before)
 			addAll(pev{"+", cond, x})
 			stmts(x.Body.List)
 			thenArm := cur
-			cur = nil
-			for _, b := range before {
-				cur = append(cur, st{append(bpath{}, b.p...), b.done})
-			}
+			cur = clone(before)
 			addAll(pev{"-", cond, x})
 			if x.Else != nil {
 				stmt(x.Else)
 			}
-			// done paths of `before` would be duplicated: keep them once
-			var merged []st
-			for _, t := range thenArm {
-				merged = append(merged, t)
-			}
-			for i, e := range cur {
-				if before[minInt(i, len(before)-1)].done && i < len(before) {
-					continue
-				}
-				merged = append(merged, e)
-			}
-			cur = merged
+			cur = append(thenArm, cur...)
 		case *ast.RangeStmt:
 			addAll(callsOf(x.X)...)
 			k, v := "", ""
@@ -201,39 +204,46 @@ func enumPaths(body *ast.BlockStmt) []bpath {
 			var clauses []ast.Stmt
 			if sw, ok := x.(*ast.SwitchStmt); ok {
 				stmt(sw.Init)
+				if sw.Tag != nil {
+					addAll(callsOf(sw.Tag)...)
+				}
 				clauses = sw.Body.List
 			} else {
 				clauses = x.(*ast.TypeSwitchStmt).Body.List
 			}
 			before := cur
 			var merged []st
+			swLevel++
+			swLoopDepth = append(swLoopDepth, depth)
+			hasDefault := false
 			for _, cl := range clauses {
 				cc := cl.(*ast.CaseClause)
-				cur = nil
-				for _, b := range before {
-					cur = append(cur, st{append(bpath{}, b.p...), b.done})
-				}
+				cur = clone(before)
 				var es []string
 				for _, e := range cc.List {
 					es = append(es, nospace(e))
 				}
 				if cc.List == nil {
 					es = []string{"default"}
+					hasDefault = true
 				}
 				addAll(pev{"case", strings.Join(es, ","), cc})
 				stmts(cc.Body)
-				for i, e := range cur {
-					if i < len(before) && before[i].done {
-						continue
-					}
-					merged = append(merged, e)
+				merged = append(merged, cur...)
+			}
+			if !hasDefault {
+				// no clause taken
+				cur = clone(before)
+				addAll(pev{"case", "<none>", s})
+				merged = append(merged, cur...)
+			}
+			for i := range merged {
+				if merged[i].brk == swLevel {
+					merged[i].brk = 0
 				}
 			}
-			for _, b := range before {
-				if b.done {
-					merged = append(merged, b)
-				}
-			}
+			swLevel--
+			swLoopDepth = swLoopDepth[:len(swLoopDepth)-1]
 			cur = merged
 		case *ast.DeferStmt:
 			addAll(pev{"call", "defer " + nospace(x.Call), x})
@@ -244,17 +254,23 @@ func enumPaths(body *ast.BlockStmt) []bpath {
 			}
 			addAll(pev{"branch", x.Tok.String() + lbl, x})
 			// leaving the analysed block (a branch outside any loop of the block, or a labelled one) ends the path;
-			// a branch inside a nested loop only ends that loop's single unrolled iteration, which is over-approximated
-			// by continuing with the statements after it
-			if depth == 0 || x.Label != nil {
+			// an unlabelled break directly inside a switch clause leaves that switch only; a branch inside a nested loop
+			// only ends that loop's single unrolled iteration, which is over-approximated by continuing with the
+			// statements after it
+			switch {
+			case x.Tok == token.BREAK && x.Label == nil && swLevel > 0 && swLoopDepth[len(swLoopDepth)-1] == depth:
 				for i := range cur {
-					cur[i].done = true
+					if cur[i].brk == 0 {
+						cur[i].brk = swLevel
+					}
 				}
+			case depth == 0 || x.Label != nil:
+				finish()
 			}
 		default:
 			addAll(pev{"other", fmt.Sprintf("%T", s), s})
 		}
-		if len(cur) > 4096 {
+		if len(cur)+len(finished) > 4096 {
 			overflow = true
 		}
 	}
@@ -267,7 +283,7 @@ func enumPaths(body *ast.BlockStmt) []bpath {
 	if overflow {
 		return nil
 	}
-	var out []bpath
+	out := append([]bpath{}, finished...)
 	for _, c := range cur {
 		out = append(out, c.p)
 	}
@@ -693,6 +709,38 @@ func builderFlow(c *Ctx, g *load.G) {
 			bad = append(bad, "no path registers a label")
 		}
 		r.Check(len(bad) == 0, "C04-j", "G.builder.addArg:registers-every-label-in-the-innermost-scope", "", where(fd), "nil → nothing; otherwise appended to argsStack[top] unconditionally", strings.Join(uniq(bad), "; "))
+	}
+	// the braces of a code block are stripped, nothing else: <X>.Val[1 : len(<X>.Val)-1]
+	for _, fn := range []string{"writeInit", "writeFunc"} {
+		fd := get("builder", fn)
+		if fd == nil {
+			continue
+		}
+		n := 0
+		var bad []string
+		ast.Inspect(fd.Body, func(nd ast.Node) bool {
+			se, ok := nd.(*ast.SliceExpr)
+			if !ok || !strings.Contains(nospace(se.X), ".Val") {
+				return true
+			}
+			n++
+			base := nospace(se.X)
+			if strings.HasPrefix(base, "strings.TrimSpace(") {
+				base = strings.TrimSuffix(strings.TrimPrefix(base, "strings.TrimSpace("), ")")
+			}
+			lo, hi := "", ""
+			if se.Low != nil {
+				lo = nospace(se.Low)
+			}
+			if se.High != nil {
+				hi = nospace(se.High)
+			}
+			if lo != "1" || hi != "len("+base+")-1" {
+				bad = append(bad, where(se)+": the block text is "+nospace(se)+", expected "+base+"[1:len("+base+")-1] (the text between the braces): a brace that stays, or a byte of code that goes, makes the emitted file not compile")
+			}
+			return true
+		})
+		r.Check(len(bad) == 0 && n == 1, "C04-j", "G.builder."+fn+":strips-exactly-the-braces", "", where(fd), "Val[1:len(Val)-1]", fmt.Sprintf("%d slice expressions on the block text; %s", n, strings.Join(bad, "; ")))
 	}
 	builderWriteFunc(c, g)
 	builderExprCode(c, g)
